@@ -31,46 +31,25 @@ Proof. exact num_le_exact_eq. Qed.
 Theorem C16_doc_b_is_DocDomain : forall g c k v, doc_b g c k v = true <-> DocDomain g c k v.
 Proof. exact doc_b_spec. Qed.
 
-(* --- accept <-> documented domain, all strings ---------------------------------------------------
-   every keyword except width/height/opacity/shape: stroke, fill, font-color, fill-pattern,
-   stroke-width [0,15], stroke-dash [0,10], border-radius >= 0, font-size [8,100], the nine boolean
-   style flags, font, text-transform, label.near, icon.near, tooltip.near, top, left, grid-rows/columns > 0, grid-gap, vertical-gap,
-   horizontal-gap >= 0, direction, theme-id, dark-theme-id, pad, sketch, center; in every context. *)
+(* --- accept <-> documented domain: ALL strings, EVERY keyword, every context -----------------------
+   (the code repaired by 0fc4ab54b).  The only exclusion is `shape` on arrowheads/connections, where
+   the compiler still lets object shapes through (open finding C16-arrowhead-object-shape, below).
+   stroke, fill, font-color, fill-pattern, opacity, stroke-width [0,15], stroke-dash [0,10],
+   border-radius >= 0, font-size [8,100], the nine boolean style flags, font, text-transform,
+   width, height, top, left >= 0, grid-rows/columns > 0, grid-gap, vertical-gap, horizontal-gap >= 0,
+   direction, shape (objects), label.near, icon.near, tooltip.near, theme-id, dark-theme-id, pad,
+   sketch, center. *)
 Theorem C16_accept_iff_in_domain : forall g c k v,
-  clean k = true -> (accepts g c k v = true <-> DocDomain g c k v).
+  clean c k = true -> (accepts g c k v = true <-> DocDomain g c k v).
 Proof. exact accept_iff_in_domain. Qed.
 
 (* colours spelled out: named CSS colour in any letter case, #rgb / #rrggbb, or a gradient *)
 Theorem C16_color_accept_iff : forall g v, valid_color g v = true <-> DocColor g v.
 Proof. exact valid_color_spec. Qed.
 
-(* --- width / height: the full statement is refuted ("-5"), guarded version holds ------------------ *)
-Theorem C16_size_refuted : forall g,
-  exists v, accepts g CObj KWidth v = true /\ accepts g CObj KHeight v = true /\
-            ~ DocDomain g CObj KWidth v /\ ~ DocDomain g CObj KHeight v.
-Proof. exact size_refuted. Qed.
-
-Theorem C16_size_accepts_every_int64 : forall g c k v,
-  is_size k = true -> (accepts g c k v = true <-> IntIn v (fun _ => True)).
-Proof. exact size_accept_iff. Qed.
-
-Theorem C16_size_guarded : forall g c k v,
-  is_size k = true -> (forall z, IntLit v z -> (0 <= z)%Z) ->
-  (accepts g c k v = true <-> DocDomain g c k v).
-Proof. exact size_guarded. Qed.
-
-(* --- opacity: accepted iff NaN or a number whose nearest float64 lies in [0,1] ------------------- *)
-Theorem C16_opacity_accept_iff : forall g c v,
-  accepts g c KOpacity v = true <-> parse_float v = Some FNaN \/ DocOpacityRounded v.
+(* opacity spelled out: accepted iff a number whose nearest float64 lies in [0,1] (NaN, Inf rejected) *)
+Theorem C16_opacity_accept_iff : forall g c v, accepts g c KOpacity v = true <-> DocOpacityRounded v.
 Proof. exact opacity_accept_iff. Qed.
-
-Theorem C16_opacity_refuted : forall g,
-  exists v, accepts g CObj KOpacity v = true /\ ~ DocOpacityRounded v /\ ~ DocOpacity v.
-Proof. exact opacity_refuted. Qed.
-
-Theorem C16_opacity_guarded : forall g c v,
-  parse_float v <> Some FNaN -> (accepts g c KOpacity v = true <-> DocOpacityRounded v).
-Proof. exact opacity_guarded. Qed.
 
 (* every number in [0,1] is accepted *)
 Theorem C16_opacity_complete : forall g c v, DocOpacity v -> accepts g c KOpacity v = true.
@@ -99,30 +78,34 @@ Proof. exact opacity_decimal_exp. Qed.
 Theorem C16_parse_float_nan_iff : forall v, parse_float v = Some FNaN <-> map lowerA v = str_nan.
 Proof. exact parse_float_nan_iff. Qed.
 
-Theorem C16_opacity_guarded_spelling : forall g c v,
-  map lowerA v <> str_nan -> (accepts g c KOpacity v = true <-> DocOpacityRounded v).
-Proof. exact opacity_guarded_spelling. Qed.
+(* shape on objects spelled out: empty (default shape) or a documented shape in any letter case *)
+Theorem C16_shape_object_accept_iff : forall g v,
+  accepts g CObj KShape v = true <-> v = [] \/ SpellsOneOf v doc_shapes.
+Proof. intros g v. exact (is_shape_spec v). Qed.
 
-(* --- shape ------------------------------------------------------------------------------------- *)
-(* refuted on objects: "ſquare" (LATIN SMALL LETTER LONG S) passes strings.EqualFold and is stored
-   as such; the empty string is accepted (it means "unset") *)
-Theorem C16_shape_object_refuted : forall g,
-  (accepts g CObj KShape str_long_s_quare = true /\ ~ DocDomain g CObj KShape str_long_s_quare /\
-   stored CObj KShape str_long_s_quare = str_long_s_quare) /\
-  (accepts g CObj KShape [] = true /\ ~ DocDomain g CObj KShape []).
-Proof. exact shape_object_refuted. Qed.
+(* --- near: CONSTANT (object at the root of the diagram; ParseKey is an oracle) ------------------ *)
+(* unconditional and for every oracle: accepted iff the value denotes the one-element key of a constant *)
+Theorem C16_near_accept_iff :
+  forall (parse_key : list N -> option (list (list N))) v,
+    near_accepts parse_key v = true <-> DocNearKey (parse_key v).
+Proof. exact near_accept_iff. Qed.
 
-Theorem C16_shape_object_guarded : forall g v,
-  v <> [] -> ~ In 197 v -> (accepts g CObj KShape v = true <-> DocDomain g CObj KShape v).
-Proof. exact shape_object_guarded. Qed.
+Theorem C16_near_constants_accepted :
+  forall parse_key : list N -> option (list (list N)),
+    (forall w, ident_word w = true -> parse_key w = Some [w]) ->
+    forall v, DocNear v -> near_accepts parse_key v = true.
+Proof. exact near_complete. Qed.
 
-(* refuted on arrowheads: every object shape ("cloud") is let through *)
+Theorem C16_doc_near_key_b_is_DocNearKey : forall p, doc_near_key_b p = true <-> DocNearKey p.
+Proof. exact doc_near_key_b_spec. Qed.
+
+(* --- shape on arrowheads: still refuted (open finding): every object shape ("cloud") passes ------ *)
 Theorem C16_shape_arrowhead_refuted : forall g,
   accepts g CArrow KShape str_cloud = true /\ ~ DocDomain g CArrow KShape str_cloud.
 Proof. exact shape_arrowhead_refuted. Qed.
 
 Theorem C16_shape_arrowhead_guarded : forall g v,
-  v <> [] -> ~ In 197 v ->
+  v <> [] ->
   (accepts g CArrow KShape v = true <-> SpellsOneOf v doc_arrowheads \/ SpellsOneOf v doc_shapes).
 Proof. exact shape_arrowhead_guarded. Qed.
 
@@ -136,73 +119,43 @@ Theorem C16_accepted_value_unchanged : forall g c k v,
   stored c k v = v \/ (keyword_valued k = true /\ go_lower (stored c k v) = go_lower v).
 Proof. exact accepted_value_unchanged. Qed.
 
-(* --- near: CONSTANT (object at the root of the diagram; ParseKey is an oracle) ------------------ *)
-Theorem C16_near_constants_accepted :
-  forall parse_key : list N -> option (list (list N)),
-    (forall w, ident_word w = true -> parse_key w = Some [w]) ->
-    forall v, DocNear v -> near_accepts parse_key v = true.
-Proof. exact near_complete. Qed.
+(* --- history: the code before 0fc4ab54b violated the property; the repaired model rejects each witness *)
+Theorem C16_pinned_size_refuted : forall g,
+  size_accepts_pinned str_minus5 = true /\ ~ DocDomain g CObj KWidth str_minus5 /\
+  ~ DocDomain g CObj KHeight str_minus5 /\
+  accepts g CObj KWidth str_minus5 = false /\ accepts g CObj KHeight str_minus5 = false.
+Proof. exact size_pinned_refuted. Qed.
 
-(* refuted: only the first path element is compared with the constants, "top-center.foo" passes *)
-Theorem C16_near_refuted :
+Theorem C16_pinned_size_accepted_every_int64 : forall v, size_accepts_pinned v = true <-> IntIn v (fun _ => True).
+Proof. exact size_pinned_accept_iff. Qed.
+
+Theorem C16_pinned_opacity_refuted : forall g,
+  opacity_accepts_pinned str_NaN = true /\ ~ DocOpacityRounded str_NaN /\ ~ DocOpacity str_NaN /\
+  accepts g CObj KOpacity str_NaN = false.
+Proof. exact opacity_pinned_refuted. Qed.
+
+Theorem C16_pinned_opacity_accept_iff : forall v,
+  opacity_accepts_pinned v = true <-> parse_float v = Some FNaN \/ DocOpacityRounded v.
+Proof. exact opacity_pinned_accept_iff. Qed.
+
+Theorem C16_pinned_shape_refuted : forall g,
+  is_shape_pinned str_long_s_quare = true /\ ~ SpellsOneOf str_long_s_quare doc_shapes /\
+  accepts g CObj KShape str_long_s_quare = false.
+Proof. exact shape_pinned_refuted. Qed.
+
+Theorem C16_pinned_near_refuted :
   (forall w, ident_word w = true -> pk_witness w = Some [w]) /\
-  near_accepts pk_witness str_top_center_foo = true /\ ~ DocNearKey (pk_witness str_top_center_foo).
-Proof. exact near_refuted. Qed.
-
-Theorem C16_near_accept_iff_key :
-  forall (parse_key : list N -> option (list (list N))) v,
-    (exists w, parse_key v = Some [w]) ->
-    (near_accepts parse_key v = true <-> DocNearKey (parse_key v)).
-Proof. exact near_accept_iff_key. Qed.
-
-Theorem C16_doc_near_key_b_is_DocNearKey : forall p, doc_near_key_b p = true <-> DocNearKey p.
-Proof. exact doc_near_key_b_spec. Qed.
-
-Theorem C16_near_guarded :
-  forall (parse_key : list N -> option (list (list N))) v,
-    near_accepts parse_key v = true -> exists h t, parse_key v = Some (h :: t) /\ DocNear h.
-Proof. exact near_guarded. Qed.
+  near_accepts_pinned pk_witness str_top_center_foo = true /\ ~ DocNearKey (pk_witness str_top_center_foo) /\
+  near_accepts pk_witness str_top_center_foo = false.
+Proof. exact near_pinned_refuted. Qed.
 
 (* --- non-vacuity of the hypotheses ------------------------------------------------------------- *)
-Example C16_size_guard_satisfiable : forall z, IntLit [49; 48] z -> (0 <= z)%Z.
-Proof.
-  intros z L. assert (E : IntLit [49; 48] 10%Z).
-  { change 10%Z with (Z.of_N (pos_val [49; 48])). apply IL_plain. split; [discriminate|]. repeat constructor. }
-  rewrite (IntLit_fun _ _ _ L E). discriminate.
-Qed.
-
-Example C16_opacity_guard_satisfiable : parse_float [48; 46; 53] <> Some FNaN /\ DocOpacity [48; 46; 53].
-Proof.
-  split; [vm_compute; discriminate|].
-  exists (fnum_Q false false 5 (-1)). split; [exists false, false, 5, (-1)%Z; split; reflexivity|].
-  split; unfold Qle; cbn; discriminate.
-Qed.
-
 Example C16_decimal_lit_satisfiable : DecimalLit [45; 48; 46; 53] true [48] [53].
 Proof.
   split; [repeat constructor|]. split; [repeat constructor|]. split; [left; discriminate|].
   exists [45]. split; [right; right; auto | left; reflexivity].
 Qed.
 
-Example C16_shape_guard_satisfiable :
-  [99; 108; 111; 117; 100] <> [] /\ ~ In 197 [99; 108; 111; 117; 100] /\
-  accepts (fun _ => false) CObj KShape [99; 108; 111; 117; 100] = true.
-Proof. split; [discriminate|]. split; [cbn; intuition discriminate | reflexivity]. Qed.
-
-Example C16_clean_satisfiable : clean KStrokeWidth = true /\ accepts (fun _ => false) CObj KStrokeWidth [49; 53] = true.
-Proof. split; reflexivity. Qed.
-
-Example C16_num_le_bounds_satisfiable : (1 <= 2 ^ 53 + 1 <= 2 ^ (53 + 1))%Z /\ (0 <= 53 <= 1075)%Z.
-Proof. split; [split; vm_compute; discriminate | lia]. Qed.
-
-Example C16_near_hyp_satisfiable : forall w, ident_word w = true -> (fun x : list N => Some [x]) w = Some [w].
-Proof. reflexivity. Qed.
-
-Print Assumptions C16_near_constants_accepted.
-Print Assumptions C16_near_refuted.
-Print Assumptions C16_near_guarded.
-Print Assumptions C16_near_accept_iff_key.
-Print Assumptions C16_doc_near_key_b_is_DocNearKey.
 Example C16_decimal_exp_lit_satisfiable : DecimalExpLit [49; 101; 45; 49] false [49] [] true [49].
 Proof.
   split; [repeat constructor|]. split; [constructor|]. split; [left; discriminate|].
@@ -210,10 +163,27 @@ Proof.
   exists [], [45], 101, [49]. repeat split; auto.
 Qed.
 
-Print Assumptions C16_parse_float_decimal_exp.
-Print Assumptions C16_opacity_decimal_exp.
-Print Assumptions C16_parse_float_nan_iff.
-Print Assumptions C16_opacity_guarded_spelling.
+Example C16_opacity_domain_satisfiable : DocOpacity [48; 46; 53].
+Proof.
+  exists (fnum_Q false false 5 (-1)). split; [exists false, false, 5, (-1)%Z; split; reflexivity|].
+  split; unfold Qle; cbn; discriminate.
+Qed.
+
+Example C16_clean_satisfiable :
+  clean CObj KStrokeWidth = true /\ accepts (fun _ => false) CObj KStrokeWidth [49; 53] = true /\
+  clean CEdge KWidth = true /\ clean CObj KShape = true /\ clean CConfig KThemeID = true.
+Proof. repeat split; reflexivity. Qed.
+
+Example C16_arrowhead_guard_satisfiable :
+  [99; 108; 111; 117; 100] <> [] /\ accepts (fun _ => false) CArrow KShape [99; 108; 111; 117; 100] = true.
+Proof. split; [discriminate | reflexivity]. Qed.
+
+Example C16_num_le_bounds_satisfiable : (1 <= 2 ^ 53 + 1 <= 2 ^ (53 + 1))%Z /\ (0 <= 53 <= 1075)%Z.
+Proof. split; [split; vm_compute; discriminate | lia]. Qed.
+
+Example C16_near_hyp_satisfiable : forall w, ident_word w = true -> (fun x : list N => Some [x]) w = Some [w].
+Proof. reflexivity. Qed.
+
 Print Assumptions C16_atoi_spec.
 Print Assumptions C16_tolower_spec.
 Print Assumptions C16_parse_float_plain_decimal.
@@ -221,17 +191,23 @@ Print Assumptions C16_num_le_exact.
 Print Assumptions C16_doc_b_is_DocDomain.
 Print Assumptions C16_accept_iff_in_domain.
 Print Assumptions C16_color_accept_iff.
-Print Assumptions C16_size_refuted.
-Print Assumptions C16_size_accepts_every_int64.
-Print Assumptions C16_size_guarded.
 Print Assumptions C16_opacity_accept_iff.
-Print Assumptions C16_opacity_refuted.
-Print Assumptions C16_opacity_guarded.
 Print Assumptions C16_opacity_complete.
 Print Assumptions C16_opacity_plain_decimal.
-Print Assumptions C16_shape_object_refuted.
-Print Assumptions C16_shape_object_guarded.
+Print Assumptions C16_parse_float_decimal_exp.
+Print Assumptions C16_opacity_decimal_exp.
+Print Assumptions C16_parse_float_nan_iff.
+Print Assumptions C16_shape_object_accept_iff.
+Print Assumptions C16_near_accept_iff.
+Print Assumptions C16_near_constants_accepted.
+Print Assumptions C16_doc_near_key_b_is_DocNearKey.
 Print Assumptions C16_shape_arrowhead_refuted.
 Print Assumptions C16_shape_arrowhead_guarded.
 Print Assumptions C16_shape_arrowhead_complete.
 Print Assumptions C16_accepted_value_unchanged.
+Print Assumptions C16_pinned_size_refuted.
+Print Assumptions C16_pinned_size_accepted_every_int64.
+Print Assumptions C16_pinned_opacity_refuted.
+Print Assumptions C16_pinned_opacity_accept_iff.
+Print Assumptions C16_pinned_shape_refuted.
+Print Assumptions C16_pinned_near_refuted.
